@@ -1,5 +1,6 @@
 import Proofs.C12Scalar
 import Proofs.C12Coll
+import Proofs.C12Frame
 import Proofs.C12Vint
 import Model.MarshalInterp
 /-!
@@ -319,6 +320,135 @@ theorem C12_tuple_typed_nil_witness :
   refine ⟨?_, ?_, by decide⟩ <;>
     simp [marshal, wrapTuple, marshalTupleIfaces, marshalTupleFields, GoVal.isNil, GoVal.isNilPtr, appendBytes,
       marshalScalar, marshalVarcharColumn, h1, hm]
+
+
+/-! ## the 2-byte framing of protocol ≤ 2, the decode direction of both framings, tuple / UDT fields -/
+
+open C12Frame in
+/-- `C12_list_framing` for protocol ≤ 2 (2-byte UNSIGNED count and element lengths, no null): if every element is
+    marshalled to its specification bytes then the whole value is the specification's encoding.  The hypothesis
+    "length ≤ 65535" is not needed as an assumption: success of Marshal implies it (second conjunct for the count,
+    `C12_v2_too_large` for the elements) -/
+theorem C12_list_framing_v2 (p : Nat) (hp : p ≤ 2) (et : CqlTy) (vs : List GoVal) (cs : List CqlVal) (b : Bytes)
+    (hall : AllOK2 p et vs cs)
+    (h : marshal p (.list et) (.slice false vs) = .ok (some b)) :
+    specEnc p (.list et) (.list cs) = some b ∧ vs.length ≤ 65535 := by
+  apply marshalList_spec_v2 p hp et vs cs b hall
+  simpa [marshal] using h
+
+/-- non-vacuity, kernel-checked: a list of one 1-byte text under protocol 2 -/
+example : marshal 2 (.list .text) (.slice false [.str false [97]]) = .ok (some [0, 1, 0, 1, 97]) ∧
+    specEnc 2 (.list .text) (.list [.bytes [97]]) = some [0, 1, 0, 1, 97] := by
+  refine ⟨?_, by decide⟩
+  have h1 : encShort (toS 16 1) = [0, 1] := by decide
+  simp [marshal, wrapSeq, marshalElems, collSize, collItem, marshalScalar, marshalVarcharColumn, h1]
+
+/-- "65536 must be an error" under protocol ≤ 2: neither marshal.go nor the specification can frame an element of
+    more than 65535 bytes (and 65535 itself is framed: `C12_coll_length_readback`) -/
+theorem C12_v2_too_large (p : Nat) (hp : p ≤ 2) (b : Bytes) (h : b.length > 65535) :
+    collItem p (some b) = none ∧ elemFrame p (some b) = none := C12Frame.too_large_v2 p hp b h
+
+/-- decode direction of the length fields: what writeCollectionSize wrote, readCollectionSize reads back — under
+    protocol ≤ 2 the [short] is read back UNSIGNED, for every count / length up to 65535 (an `int16` reading would
+    make 32768..65535 negative); an element's bytes come back unchanged (EMPTY stays empty) and a null (protocol ≥ 3)
+    comes back as null -/
+theorem C12_coll_length_readback (p : Nat) (rest : Bytes) :
+    (∀ (n : Nat) (c : Bytes), collSize p (n:Int) = some c → readCollSize p (c ++ rest) = some ((n:Int), rest)) ∧
+    (∀ (b e : Bytes), collItem p (some b) = some e → readCollItem p (e ++ rest) = some (some b, rest)) ∧
+    (p ≥ 3 → ∀ e, collItem p none = some e → readCollItem p (e ++ rest) = some (none, rest)) :=
+  ⟨fun n c h => C12Frame.readCollSize_collSize p n c rest h,
+   fun b e h => C12Frame.readCollItem_collItem p b e rest h,
+   fun hp e h => C12Frame.readCollItem_null p hp e rest h⟩
+
+/-- the boundary itself, kernel-checked: length 65535 (ff ff) is written under protocol 2 and read back as 65535, 32768
+    (80 00) as 32768 -/
+example : collSize 2 65535 = some [255, 255] ∧ readCollSize 2 [255, 255] = some (65535, []) ∧
+    collSize 2 32768 = some [128, 0] ∧ readCollSize 2 [128, 0] = some (32768, []) ∧ collSize 2 65536 = none := by
+  decide
+
+/-- the readers of the model accept whatever the SPECIFICATION's readers accept, with the same result: collection
+    count, collection element (both framings; under protocol ≤ 2 the two are the same function), tuple / UDT field
+    — in particular length 0 is a present, EMPTY value and only a negative length is null -/
+theorem C12_readers_conform (p : Nat) (b r : Bytes) :
+    (∀ n, readCount p b = some (n, r) → readCollSize p b = some ((n:Int), r)) ∧
+    (∀ e, readElem p b = some (e, r) → readCollItem p b = some (e, r)) ∧
+    (p ≤ 2 → readCollItem p b = readElem p b) ∧
+    (∀ e, readBytesFrame b = some (e, r) → readBytesM b = some (e, r)) :=
+  ⟨fun n h => C12Frame.readCollSize_of_readCount p b r n h,
+   fun e h => C12Frame.readCollItem_of_readElem p b r e h,
+   fun hp => C12Frame.readCollItem_eq_readElem_v2 p hp b,
+   fun e h => C12Frame.readBytesM_of_readBytesFrame b r e h⟩
+
+/-- null ≠ empty inside tuples and UDTs, both sides: the field writer followed by the field reader gives back null
+    for null (−1) and the EMPTY value for an empty value (0) — for the model of marshal.go (appendBytes / readBytes)
+    and for the specification (`bytesFrame` / `readBytesFrame`) -/
+theorem C12_field_null_vs_empty (rest : Bytes) :
+    readBytesM (appendBytes (some []) ++ rest) = some (some [], rest) ∧
+    readBytesM (appendBytes none ++ rest) = some (none, rest) ∧
+    readBytesFrame (bytesFrame (some []) ++ rest) = some (some [], rest) ∧
+    readBytesFrame (bytesFrame none ++ rest) = some (none, rest) :=
+  ⟨(C12Frame.readBytesM_empty_vs_null rest).1, (C12Frame.readBytesM_empty_vs_null rest).2,
+   C12Frame.readBytesFrame_bytesFrame (some []) rest (by intro b hb; injection hb with hb; subst hb; simp),
+   C12Frame.readBytesFrame_bytesFrame none rest (by intro b hb; cases hb)⟩
+
+open C12Frame in
+/-- `specDec (specEnc v) = v` for tuples and UDTs, given it for the non-null fields (`FieldsRT`): null fields, EMPTY
+    fields and absent trailing fields (a UDT value shorter than its type) all come back as they were -/
+theorem C12_spec_fields_roundtrip (p : Nat) (names : List String) (ts : List CqlTy) (vs : List CqlVal) (b : Bytes)
+    (hf : FieldsRT p ts vs) :
+    (specEnc p (.tuple ts) (.tuple vs) = some b → specDec p (.tuple ts) b = some (.tuple vs)) ∧
+    (specEnc p (.udt names ts) (.tuple vs) = some b → specDec p (.udt names ts) b = some (.tuple vs)) := by
+  constructor <;> intro h <;> simp only [specEnc] at h <;>
+    simp [specDec, specDecFields_specEncFields p ts vs b hf h]
+
+open C12Frame in
+/-- non-vacuity: a UDT (text, text, int) holding (null, EMPTY) with the third field absent -/
+example : specEnc 4 (.udt ["a", "b", "c"] [.text, .text, .int]) (.tuple [.null, .bytes []]) =
+      some [255, 255, 255, 255, 0, 0, 0, 0] ∧
+    specDec 4 (.udt ["a", "b", "c"] [.text, .text, .int]) [255, 255, 255, 255, 0, 0, 0, 0] =
+      some (.tuple [.null, .bytes []]) := by
+  have henc : specEnc 4 (.udt ["a", "b", "c"] [.text, .text, .int]) (.tuple [.null, .bytes []]) =
+      some [255, 255, 255, 255, 0, 0, 0, 0] := by decide
+  refine ⟨henc, ?_⟩
+  refine (C12_spec_fields_roundtrip 4 ["a", "b", "c"] [.text, .text, .int] [.null, .bytes []] _ ?_).2 henc
+  refine .cons (.inl rfl) (.cons (.inr ⟨rfl, ?_⟩) .nil)
+  intro b hb
+  simp [specEnc] at hb
+  subst hb
+  simp [specDec]
+
+open C12Frame in
+/-- model decode = specification decode, collections (structural step, both framings): if the model's element
+    decoder `f` agrees with the specification's element decoder `g` (`ElemDecOK`: `rep c` for every decoded `c`,
+    `rep null` for null) then unmarshalList's loop yields exactly the representation of what `decElems` yields -/
+theorem C12_list_decode_framing (p : Nat) (f : Option Bytes → URes) (g : Bytes → Option CqlVal) (rep : CqlVal → GoVal)
+    (hfg : ElemDecOK f g rep) (n : Nat) (b r : Bytes) (cs : List CqlVal)
+    (h : decElems p g n b = some (cs, r)) : unmarshalElems p f n b = .ok (cs.map rep) r :=
+  unmarshalElems_spec p f g rep hfg n b r cs h
+
+open C12Frame in
+/-- model decode = specification decode, tuples into scan targets (structural step): every field the specification
+    reader delivers — null, EMPTY, bytes — reaches the field decoder as such, absent trailing fields are null -/
+theorem C12_tuple_decode_framing (p : Nat) (ts : List CqlTy) (gs : List GoTy) (b : Bytes) (cs : List CqlVal)
+    (xs : List GoVal) (h : specDecFields p ts b = some cs) (hok : ScanOK p ts gs cs xs) :
+    unmarshalTupleScan p ts gs b = .ok xs [] :=
+  unmarshalTupleScan_spec p ts gs b cs xs h hok
+
+open C12Frame in
+/-- model decode = specification decode, tuples into a struct / slice / array (structural step): `setField` is one
+    field of unmarshalTuple — decode into goType(elem), then the slot rule `setSlot` (`unmarshalTupleSet_cons`); every
+    field the specification reader delivers reaches it as null, EMPTY or bytes; absent trailing fields are null -/
+theorem C12_tuple_struct_decode_framing (p : Nat) (ts : List CqlTy) (gs : List GoTy) (b : Bytes) (cs : List CqlVal)
+    (xs : List GoVal) (h : specDecFields p ts b = some cs) (hok : SetOK p ts gs cs xs) :
+    unmarshalTupleSet p ts gs b = .ok xs [] :=
+  unmarshalTupleSet_spec p ts gs b cs xs h hok
+
+open C12Frame in
+/-- the slot rule keeps null and EMPTY apart: a pointer field of the element's Go type is nil exactly for a null
+    element; a present element — empty or not — gives a non-nil pointer to the decoded value -/
+theorem C12_slot_null_vs_empty (t : CqlTy) (item : Option Bytes) (v : GoVal) :
+    setSlot t (.ptr (goTypeOf t)) item v = if item.isSome then .ok (.ptr v) else .ok .nilptr :=
+  setSlot_ptr t item v
 
 /-! ## duration: three zig-zag vints -/
 
